@@ -175,6 +175,17 @@ def run(tier):
             a, b = one_case(rec, std[cn], agent, "get_many", [(bytes(nm), ("int", ni)), (BASE + [2, 0], ("int", 1))], k)
             runs.append((a, b, dict(cfg=cn, op="get_many", vt="name", tlv=nm, cls=0)))
             chk.case((cn, "name", bytes(nm).hex()))
+    # table rows: consecutive names that differ in their last sub-identifier only, with last arcs on both sides of every
+    # base-128 length step (the key handed to the caller is the text of each name, whatever its neighbours were)
+    for start in (1, 126, 127, 200, 1000, 16382, 16383, 2097150, 268435454, 4294967290):
+        for cn in (["v2c", "v3-sha1-aes"] if not thorough else carriers):
+            if std[cn].ver == "v1":
+                continue
+            k += 1
+            lay = [(BASE + [4, 2, start + j], random_value(rng) if j % 2 else ("int", start + j)) for j in range(6)]
+            a, b = one_case(rec, std[cn], agent, "getbulk", lay, k)
+            runs.append((a, b, dict(cfg=cn, op="getbulk", vt="rows%d" % start, tlv=[], cls=-1)))
+            chk.case((cn, "rows", start))
     # random values over the full ranges
     nrand = 20000 if thorough else 2500
     for i in range(nrand):
